@@ -36,10 +36,11 @@ const (
 	kHold              // the frame is delivered after the next frame of the same direction
 	kReplace           // the frame is replaced by a frame recorded on an earlier connection
 	kInjectAck         // an Ack{Null} frame is inserted before the frame
+	kSubstitute        // the frame is replaced by a well-formed frame of another type (variant A)
 	kNumKinds
 )
 
-var kindNames = [...]string{"corrupt", "trunc-eof", "trunc-stall", "len-field", "bad-type", "drop", "dup", "hold", "replace", "inject-ack"}
+var kindNames = [...]string{"corrupt", "trunc-eof", "trunc-stall", "len-field", "bad-type", "drop", "dup", "hold", "replace", "inject-ack", "substitute"}
 
 var errClosedPipe = errors.New("c14 pipe: closed")
 
@@ -113,6 +114,24 @@ func (s *stream) enqueue(b []byte, w *wr) { // s.mu held
 		}
 		off += n
 	}
+}
+
+// substituteFrame returns a well-formed frame whose type differs from cur: Ack{Null},
+// Ack{Unexpected}, Proto{DRPC,[Snappy]}, SkipVerify credentials of version 13.
+func substituteFrame(a int, cur byte) []byte {
+	frames := [][]byte{
+		{msgTypeAck, 0, 0, 0, 0},
+		{msgTypeAck, 2, 0, 0, 0, 0x08, 0x01},
+		{msgTypeProto, 2, 0, 0, 0, 0x10, 0x01},
+		{msgTypeCred, 6, 0, 0, 0, 0x18, 13, 0x22, 2, 'x', 'y'},
+	}
+	for i := 0; i < len(frames); i++ {
+		f := frames[(a+i)%len(frames)]
+		if f[0] != cur {
+			return append([]byte(nil), f...)
+		}
+	}
+	return append([]byte(nil), frames[0]...)
 }
 
 func lenFieldVariant(a, cur int) uint32 {
@@ -217,6 +236,9 @@ func (s *stream) transform1(idx int, p []byte) (out [][]byte) {
 			out = [][]byte{b}
 		case kInjectAck:
 			out = [][]byte{{msgTypeAck, 0, 0, 0, 0}, b}
+		case kSubstitute:
+			b = substituteFrame(t.A, b[0])
+			out = [][]byte{b}
 		}
 	}
 	return out
